@@ -111,7 +111,7 @@ func replay(prop string, r *sym.CaseResult, v *sym.ViolationInfo, path string) s
 	ob, _ := json.Marshal(ov)
 	ovFile := filepath.Join(work, "overlay.json")
 	os.WriteFile(ovFile, ob, 0o644)
-	cmd := exec.Command("go", "test", "-tags", "verif verifreplay", "-vet=off", "-count=1", "-run", "^TestVerifReplay$", "-overlay", ovFile, ".")
+	cmd := exec.Command("go", "test", "-tags", "verif verifreplay", "-vet=off", "-count=1", "-timeout", "120s", "-run", "^TestVerifReplay$", "-overlay", ovFile, ".")
 	cmd.Dir = *repoDir
 	cmd.Env = append(os.Environ(), "GOFLAGS=-mod=mod", "GOPROXY=off", "GOSUMDB=off", "GOTOOLCHAIN=local")
 	out, _ := cmd.CombinedOutput()
@@ -126,6 +126,10 @@ func replay(prop string, r *sym.CaseResult, v *sym.ViolationInfo, path string) s
 		return "diverged"
 	}
 	if strings.Contains(txt, "VFASSERT-FAIL: "+v.ID) {
+		return "confirmed"
+	}
+	if strings.HasPrefix(v.ID, "noblock:") && (strings.Contains(txt, "test timed out") || strings.Contains(txt, "all goroutines are asleep")) {
+		// the model says a call waits for ever: natively the test does not come back
 		return "confirmed"
 	}
 	// the native run stops at the first assertion that fails in program order; the model may have
@@ -310,7 +314,7 @@ func gateOverlay(work string, replace map[string]string) error {
 			continue
 		}
 		switch n {
-		case "buffer_manager.go", "buffer_slice.go", "queue.go", "session.go", "protocol_manager.go", "stream.go", "buffer.go":
+		case "buffer_manager.go", "buffer_slice.go", "queue.go", "session.go", "protocol_manager.go", "stream.go", "buffer.go", "event_dispatcher_linux.go", "session_manager.go", "listener.go", "util.go":
 			virtual := filepath.Join(*repoDir, n)
 			real := virtual
 			if r, ok := replace[virtual]; ok {
